@@ -20,7 +20,7 @@ use crate::util::{self, Shard};
 pub const ALPHABET: [&str; 14] =
     ["a", "A", " ", "\t", "\0", "é", "e\u{301}", "Å", "ﬁ", "İ", "ß", "ǆ", "中", "😀"];
 
-const BASE: [&str; 12] = [
+const BASE: [&str; 14] = [
     "bert(lowercase=false,strip_accents=false)",
     "bert(lowercase=true,strip_accents=false)",
     "bert(lowercase=false,strip_accents=true)",
@@ -33,6 +33,8 @@ const BASE: [&str; 12] = [
     "replace(a->bb)",
     "replace( +-> )",
     "replace(é->e)",
+    "replace( ->▁)",
+    "replace(a->é中)",
 ];
 
 fn make_base(i: usize) -> Box<dyn Normalizer> {
@@ -51,6 +53,8 @@ fn make_base(i: usize) -> Box<dyn Normalizer> {
         9 => rep("a", "bb"),
         10 => rep(" +", " "),
         11 => rep("é", "e"),
+        12 => rep(" ", "▁"),
+        13 => rep("a", "é中"),
         _ => unreachable!(),
     }
 }
@@ -196,7 +200,8 @@ fn observe_encode_str(sh: &mut Shard, tok: &Tokenizer, norm: &dyn Normalizer, s:
                     Err(_) => return,
                 }
             };
-            let want: Vec<usize> = pieces.iter().map(|&p| map[p]).collect();
+            // a map shorter than the text is reported by `check`; nothing to observe here
+            let Some(want) = pieces.iter().map(|&p| map.get(p).copied()).collect::<Option<Vec<usize>>>() else { return };
             let got = &enc.token_offsets()[..enc.token_ids().len().min(enc.token_offsets().len())];
             sh.add("encode_str_probe_cases", 1);
             if got != want.as_slice() {
@@ -266,8 +271,10 @@ pub fn run(ctx: Ctx) -> ! {
                 }
                 if out.len_changed && idx.len() >= 2 {
                     sh.sample(1, || {
-                        let (t, m) = norm.normalize(s).unwrap();
-                        json!({"case": case_json(chain, s), "normalized": util::show_str(&t), "offset_map": m})
+                        match vp_core::catch(|| norm.normalize(s)) {
+                            Ok(Ok((t, m))) => json!({"case": case_json(chain, s), "normalized": util::show_str(&t), "offset_map": m}),
+                            _ => json!({"case": case_json(chain, s), "normalized": "(normalize failed or panicked)"}),
+                        }
                     });
                 }
                 for (sig, detail) in out.sigs {
